@@ -57,7 +57,9 @@ def countWidth (id : String) : Items → Option Nat
     `uint8_t` / `uint16_t` promote to `int` (overflow of the signed product is undefined behaviour),
     `uint32_t` wraps at 2^32, `uint64_t` at 2^64 -/
 def mulCount (cw es n : Nat) : Dec Nat :=
-  if cw ≤ 16 then (if es * n < 2 ^ 31 then .ok (es * n) else .panic .mulOverflow)
+  -- (a count of at most 16 bits is below 2^16 by its C++ type: the product is exact unless the element size
+  -- itself is beyond 2^15 octets — signed overflow, not modelled)
+  if cw ≤ 16 then (if es * 65535 < 2 ^ 31 then .ok (es * n) else .panic .badLayout)
   else if cw ≤ 32 then .ok ((es * n) % 2 ^ 32)
   else .ok ((es * n) % 2 ^ 64)
 
@@ -130,6 +132,12 @@ def arrayFull (el : Bytes → Dec (Value × Bytes)) (ew : ElemWidth) (shape : Sh
   | .unknown, .unknown => (decWhile el (sp.length + 1) sp).bind fun vs => .ok (vs, [])
   | .dynamic, _ => .panic .badLayout
 
+/-- the local `uint8_t c = ...` a condition flag was read into -/
+def condValue (st : DState) (cid : String) : Dec Nat :=
+  match st.ctx.get (.val cid) with
+  | some cv => .ok cv
+  | none => .panic .badLayout
+
 mutual
 /-- one array element of a struct parser: a raw read for scalars and enums (closed enums are validated),
     `T::Parse(span, &out)` for structs -/
@@ -155,9 +163,7 @@ def decItem (c : Cfg) (all rest : Items) : Item → Bytes → DState → Dec (DS
       else (decBody c b bs).bind fun (v, r) => .ok ({ st with fields := st.fields ++ [(id, v)] }, r)
     | _ => .panic .badLayout      -- scalars and enums are bit-fields; custom fields are not modelled
   | .optional id ty cid cval, bs, st =>
-    match st.ctx.get (.val cid) with
-    | none => .panic .badLayout
-    | some cv =>
+    (condValue st cid).bind fun cv =>
       if cv = cval then
         match ty with
         | .scalar w =>
@@ -211,6 +217,51 @@ def decBody (c : Cfg) : Body → Bytes → Dec (Value × Bytes)
                              | none => [])), r)
   | .derived .., _ => .panic .badLayout
 end
+
+/-! ### the layouts on which the emitted struct parser is shown to agree with the reference decoder -/
+
+/-- the product `element size * count` is exact: a count field of at most 16 bits -/
+def countOk (all : Items) (id : String) (w : Nat) : Bool :=
+  match countWidth id all with
+  | some cw => decide (cw ≤ 16) && decide (w * 65535 < 2 ^ 31)
+  | none => false
+
+def isStruct : Ty → Bool
+  | .struct .. => true
+  | _ => false
+
+mutual
+def wfTy : Ty → Bool
+  | .struct _ (.root _ items) => wfItems items items
+  | .struct _ (.derived ..) => false
+  | .custom .. => false
+  | _ => true
+/-- no array size modifier; a struct field of unknown size is the last field; count fields of statically sized
+    elements at most 16 bits wide; no padded arrays; no element-size or custom fields; the octets kept after an
+    unsized payload are what the fields that follow occupy -/
+def wfItem (all rest : Items) : Item → Bool
+  | .chunk fs => fs.all Py.bfPlain
+  | .typedef _ ty _ => isStruct ty && wfTy ty && !(unkTy ty && decide (Py.tailKeep rest > 0))
+  | .optional _ ty _ _ => wfTy ty
+  | .payload (.sized _) => true
+  | .payload .last => Py.tailKeep rest == 0
+  | .payload (.beforeStatic k) => Py.tailKeep rest == k
+  | .payload .undelimited => false
+  | .array id elem ew shape pad =>
+    pad.isNone && wfTy elem &&
+    (match ew with
+     | .static w => staticTy elem == some w && localWfTy elem &&
+         (match shape with | .countField => countOk all id w | _ => true)
+     | .unknown => isStruct elem
+     | .dynamic => false)
+def wfItems (all : Items) : Items → Bool
+  | .nil => true
+  | .cons i r => wfItem all r i && wfItems all r
+end
+
+def wfBody : Body → Bool
+  | .root _ items => wfItems items items
+  | .derived .. => false
 
 /-! ### packet views -/
 
